@@ -175,6 +175,21 @@ def drive_patterned(args):
     sa['ph'] = [rng.choice(vals) for _ in sa['ph']]
     sb = PT.gen_pattern(rng, [T, U] if twod else [T], default=ZERO[kind], start_id=50)
     sb['ph'] = [rng.choice(vals) for _ in sb['ph']]
+    if i % 3 == 0:
+        # pair-indexed systems: unknowns are pairs (i,j), A[(i,j),(j,l)] = w[i,j,l], b sparse: the support
+        # of A^k b keeps growing for several rounds
+        m = rng.choice([2, 2, 3])
+        n = m * m
+        P = lambda i_: {'k': 'P', 'id': i_, 'n': m}
+        sa = {'ps': [{'id': 1, 'n': m}, {'id': 2, 'n': m}, {'id': 3, 'n': m}],
+              'vs': [{'k': 'X', 'fs': [P(1), P(2)]}, {'k': 'X', 'fs': [P(2), P(3)]}], 'd': ZERO[kind],
+              'ph': [rng.choice(vals + [vals[-1]]) for _ in range(m ** 3)]}
+        if kind in ('real', 'log'):
+            # keep it convergent-or-infinite on the exact carrier: entries 0/1 only and acyclic-ish sparsity
+            sa['ph'] = [1 if (q // (m * m)) < ((q // m) % m) and rng.random() < 0.8 else 0 for q in range(m ** 3)]
+        onehot = {'k': 'S', 'b': 0, 't': {'k': 'X', 'fs': []}, 'a': m - 1}
+        sb = {'ps': [], 'vs': [{'k': 'X', 'fs': [onehot, dict(onehot)]}], 'd': ZERO[kind], 'ph': [vals[-1] if kind != 'bool' else 1]}
+        twod = False
     mk = lambda st: PT.build({'ps': st['ps'], 'vs': st['vs'], 'd': AG._to_float(st['d'], kind), 'ph': [AG._to_float(v, kind) for v in st['ph']]},
                              torch.bool if kind == 'bool' else dtype)
     c = case_base(kind, dtype, 'pt_solve', n, [], [], tag=['patterned_operands'])
@@ -224,8 +239,33 @@ def drive_multi(args):
         off[k] = o
         o += sizes[k]
     cert = kind in ('real', 'log') and i % 3 == 0 and what == 'multi_solve'
-    if cert:
-        A, bs, xs = gen_cert(rng, n, 1)
+    offdiag = what == 'multi_solve' and i % 4 == 1
+    if offdiag:
+        # three scalar unknowns without diagonal blocks, every off-diagonal block present: the
+        # diagonal blocks only come into being during elimination
+        keys = ['x', 'y', 'z']
+        shapes = {k: () for k in keys}
+        sizes = {k: 1 for k in keys}
+        n = 3
+        off, o_ = {}, 0
+        for k in keys:
+            off[k] = o_
+            o_ += 1
+    if cert or (offdiag and kind in ('real', 'log')):
+        cert = True
+        while True:
+            A, bs, xs = gen_cert(rng, n, 1)
+            if not offdiag:
+                break
+            if all(A[r * n + r] == 0 for r in range(n)) and all(A[r * n + c_] != 0 for r in range(n) for c_ in range(n) if r != c_):
+                break
+            # force the structure and recompute b for the same integer solution
+            x = xs[0]
+            A = [0 if r == c_ else 1 for r in range(n) for c_ in range(n)]
+            b4 = [4 * x[r] - sum(A[r * n + c_] * x[c_] for c_ in range(n)) for r in range(n)]
+            if min(b4) >= 0:
+                bs = [b4]
+                break
         scale = 4
     else:
         A, bs = gen_system(rng, kind, n, 1)
